@@ -142,8 +142,13 @@ def gen_clean_case(rng, idx, nmax):
     for _ in range(n):
         c = rng.choice(centers)
         pos.append([round(c[k] + rng.gauss(0, spread), 3) for k in range(3)])
-    scores = rng.sample(range(1, 100000), n)
-    scores = [s / 1000.0 for s in scores]
+    if rng.random() < 0.3:
+        # coarse metric values (rounded scores, class-like integers, a constant column): ties inside a group
+        pool = [round(rng.uniform(0, 1), 2) for _ in range(max(1, n // rng.randint(2, 6)))]
+        scores = [rng.choice(pool) for _ in range(n)]
+    else:
+        scores = rng.sample(range(1, 100000), n)
+        scores = [s / 1000.0 for s in scores]
     if rng.random() < 0.25:
         base = rng.choice([100000, 240115, 999998, 1000000])      # date-coded / running ids: large and consecutive
         gvals = [base + i for i in range(ngroups)]
@@ -179,10 +184,9 @@ def exec_clean_case(ctx, case):
         ctx.discard("distance within 1e-6 of the radius")
         return None
     sc = case["scores"]
-    order = sorted(range(n), key=lambda i: -sc[i] if case["keep_greater"] else sc[i])
-    rank = [0] * n
-    for r, i in enumerate(order):
-        rank[i] = r + 1
+    distinct = sorted(set(sc), reverse=case["keep_greater"])
+    dense = {v: k + 1 for k, v in enumerate(distinct)}
+    rank = [dense[v] for v in sc]            # equal metric values share a rank
     ids = rng.sample(range(1, 10 * n + 10), n)
     motl, cols = make_motl(pos, case["groups"], None, case["field"], rng, ids=ids)
     out, err = core.call_guarded(run_clean, motl, cols, case["metric"], sc, case["d"], case["field"], case["keep_greater"])
@@ -245,7 +249,9 @@ def exec_peaks_case(ctx, case):
            "list": "file" if (case["as_file"] or case["order"] == "zzx") else "array"}
     if case["as_file"] or case["order"] == "zzx":
         # a zzx list is always passed as a file: the loader honours angles_order only for files (see DESIGN C07)
-        path = os.path.join(ctx.workdir, "angles_%d.csv" % case["id"])
+        # one path for the whole run, rewritten for every call with other content / another column order: a call
+        # must read the file it is given now
+        path = os.path.join(ctx.workdir, "angles_shared.csv" if case["id"] % 4 else "angles_%d.csv" % case["id"])
         with open(path, "w") as fh:
             for r in alist:
                 fh.write("%.3f,%.3f,%.3f\n" % (r[0], r[1], r[2]))
@@ -375,7 +381,7 @@ def run(ctx):
                 "L3: random clustered lists (1..400 particles, 1..4 groups) and random plateau-free score maps whose "
                 "brute-force relations and outputs are judged by SuppressTrace. distinct = distinct case descriptions")
     ctx.assumptions += ["close relations, ranks and the supra-threshold set are computed by brute force in the driver",
-                        "inputs with a pair distance within 1e-6 of the radius or with equal scores are discarded",
+                        "inputs with a pair distance within 1e-6 of the radius are discarded; tied metric values are generated for clean_by_distance (judged by the predicate), score maps are plateau-free",
                         "array angle lists with angles_order='zzx' are not generated (pass-through is intended, DESIGN C07)"]
     # L1 abstract: all relations x groupings
     n_abs = ctx.pick(4, 5)
